@@ -109,6 +109,7 @@ static void c15_batch(long idx, long n, uint64_t seed) {
                                        // 4 answered requests that carry a time-out followed by slow requests without one,
                                        // 5 a response and the expiry of a time-out reaching the client in ONE poll result (see below)
         if (scenario == 5) { threads = 1; maxConn = 2; nreq = 7; }
+        if (scenario == 4) nreq = std::min(nreq, 16 * maxConn);   // its slow requests take 0.6 s each: the batch has to fit into the waiting bound
         Http::Experimental::Client client;
         client.init(Http::Experimental::Client::options().threads(threads).maxConnectionsPerHost(maxConn));
         std::vector<std::unique_ptr<Outcome>> out; std::vector<int> beh((size_t)nreq), timeoutMs((size_t)nreq, 0);
@@ -189,6 +190,8 @@ static void c15_batch(long idx, long n, uint64_t seed) {
         auto allSettled = [&] { for (auto& o : out) if (o->fulfilled + o->rejected == 0) return false; return true; };
         double hardEnd = lv::now() + 20.0 * lf;
         while (!allSettled() && lv::now() < hardEnd) { lv::msleep(10); if (lv::now() - srv.lastActivity.load() > 3.0 * lf && lv::now() - srv.lastActivity.load() < 1e6 && srv.lastActivity.load() > 0) break; }
+        // a batch cut short by the bound while the server was still receiving requests: what had not been sent yet is not judged
+        bool truncated = !allSettled() && srv.lastActivity.load() > 0 && lv::now() - srv.lastActivity.load() <= 3.0 * lf;
         lv::msleep(50);
         // second wave: once the batch has drained, further requests through the same client must still be served
         // (connections handed back to the pool, nothing left claimed)
@@ -244,7 +247,7 @@ static void c15_batch(long idx, long n, uint64_t seed) {
                 bool connLost = false; for (auto& l : log) if (l.conn == byId[k].conn && l.behaviour == B_CLOSE_AFTER) connLost = true;
                 if (!connLost) key = std::string("c15:answered-but-not-fulfilled:") + (precededByLate(k) ? "after-late-response-of-timed-out-request" : o.rejected ? "rejected" : "unsettled");
             }
-            else if (!byId.count(k) && o.fulfilled + o.rejected == 0) key = "c15:request-never-sent-and-never-settled";
+            else if (!byId.count(k) && o.fulfilled + o.rejected == 0) { if (truncated) { count("requests_not_judged_batch_cut_short"); } else key = "c15:request-never-sent-and-never-settled"; }
             if (!key.empty()) anomalies.emplace_back(key, cfg + ": request " + std::to_string(k) + " (" + BNAME[b] + "): " + key.substr(4), wt);
             count(std::string("requests_") + BNAME[b]);
         }
